@@ -702,7 +702,7 @@ int QSexact_optimal_test (mpq_QSdata * p,
 			{
 				MESSAGE(0, "lower bound (%s,%d) slack (%lg) and dual variable (%lg)"
 								 " don't satisfy complementary slacknes %s", 
-								 qslp->colnames[col], i, mpq_get_d(num1), mpq_get_d(dz[col]), 
+								 qslp->rownames[i], i, mpq_get_d(num1), mpq_get_d(dz[col]), 
 								 "(real)");
 			}
 			goto CLEANUP;
@@ -721,7 +721,7 @@ int QSexact_optimal_test (mpq_QSdata * p,
 				MESSAGE(0, "upper bound (%lg) variable (%lg) and dual variable"
 								" (%lg) don't satisfy complementary slacknes for variable "
 								"(%s,%d) %s", mpq_get_d(arr4[col]), 
-								mpq_get_d(p_sol[i+qslp->nstruct]), mpq_get_d(dz[col]), qslp->colnames[col], i,
+								mpq_get_d(p_sol[i+qslp->nstruct]), mpq_get_d(dz[col]), qslp->rownames[i], i,
 								"(real)");
 			}
 			goto CLEANUP;
